@@ -56,10 +56,16 @@ def do(z, op):
 
 
 def _unlimited_child(a):
-    img, password, ops, as_file = a
+    img, password, ops, as_file = a[:4]
     import py7zr
 
-    resource.setrlimit(resource.RLIMIT_AS, (resource.RLIM_INFINITY, resource.RLIM_INFINITY))
+    if len(a) > 4 and a[4] == "fresh-limit":
+        # the same limit as the shard's, but counted from what THIS process has now: a full gibibyte of headroom again
+        with open("/proc/self/statm") as f:
+            vm = int(f.read().split()[0]) * os.sysconf("SC_PAGE_SIZE")
+        resource.setrlimit(resource.RLIMIT_AS, (vm + MEM_HEADROOM, resource.RLIM_INFINITY))
+    else:
+        resource.setrlimit(resource.RLIMIT_AS, (resource.RLIM_INFINITY, resource.RLIM_INFINITY))
     with open("/proc/self/statm") as f:
         rss0 = int(f.read().split()[1]) * os.sysconf("SC_PAGE_SIZE")
     outcome = "returned"
@@ -115,6 +121,15 @@ def probe(img: bytes, password, maxlen: int, progress, label, as_file: bool = Fa
             if verdict[0] == "MemoryError" and verdict[1] < (256 << 20):
                 counts["memoryerror_without_memory_pressure"] = counts.get("memoryerror_without_memory_pressure", 0) + 1
                 return ("raise", "MemoryError")
+            if verdict[0] not in ("crash", "hang") and verdict[1] < (256 << 20):
+                # no memory needed without the limit: has this worker's headroom (set once per shard) been used up by the
+                # cases before this one?  Repeat under the same limit counted from a fresh baseline.
+                from mc.core.pool import forked
+
+                st2, val2 = forked(_unlimited_child, (img, password, replay_ops[0], as_file, "fresh-limit"), timeout=120)
+                if st2 == "ok" and val2[0] != "MemoryError":
+                    counts["memoryerror_headroom_used_up_by_earlier_cases"] = counts.get("memoryerror_headroom_used_up_by_earlier_cases", 0) + 1
+                    return ("raise", "MemoryError")
             out.append(("memory", f"{what} raised MemoryError under an address-space limit of baseline + 1 GiB (without the limit the same calls end with {verdict[0]} after the resident set grew by {verdict[1] >> 20} MiB)"))
             return ("memory", None)
         except Exception as ex:
@@ -547,7 +562,7 @@ def main(tier="quick", seed=0, only=None):
             "swapped with its successor, FilesInfo property sizes left stale and re-fitted; all outer CRCs re-sealed (raw, LZMA- and "
             f"AES-encoded headers); missing and 5 wrong passwords; scaling series: seven families of headers large in one dimension (n folders and packed streams, n files in one folder, n stream-less files, n chained coders in one folder, n files with n/4 repeated name properties, n chained coders x n members of one folder, one coder with n input streams x n members) at n, 2n, 4n - open() must not take more than 2.8x as long at both doublings, nor may its traced peak memory (once above 64 MiB) grow by more than 2.8x at both; decompression bombs: for 8 codecs a packed stream expanding to 32 MiB in a folder that declares 10 bytes (peak Python-level memory, by tracemalloc, must stay within 64 x (input + declared output) + 16 MiB); the signature header's NextHeaderOffset / Size / CRC set to the boundary values with StartHeaderCRC re-sealed, each as a stream and as a real file opened by name. On every input that opens: every call sequence of length <= {maxlen} (byte-level damage: <= 2) over "
             f"{OPS} on one session (incl. extract twice without reset). Oracle: each call returns or raises an Exception within 8 s + 50 us/byte, "
-            "no MemoryError with RLIMIT_AS = baseline + 1 GiB (a MemoryError is re-examined in a child process without the limit: raised again while the resident set grows by less than 256 MiB it is a codec's way of reporting corrupt data - counted, not judged), worker process alive. Non-trivial = the input got past open()."
+            "no MemoryError with RLIMIT_AS = baseline + 1 GiB (a MemoryError is re-examined in a child process without the limit: raised again while the resident set grows by less than 256 MiB it is a codec's way of reporting corrupt data - counted, not judged; not raised again, neither without the limit nor under the same limit counted from a fresh baseline, the worker's headroom had been used up by earlier cases - counted, not judged), worker process alive. Non-trivial = the input got past open()."
         ),
         assumptions=["codec dictionary/model-size properties (LZMA, LZMA2, PPMd) are not mutated: a large dictionary is a legal declaration whose cost belongs to the codec"],
         exhaustive=True, max_sequence_length=maxlen,
